@@ -1,4 +1,11 @@
-"""E-POLICY D1 engine: fibre_cache::policy::* through the public CachePolicy trait."""
+"""E-POLICY D1 engine: fibre_cache::policy::* through the public CachePolicy trait.
+
+Case line:  <policy>[:<capacity>] (a K C | m K C | r K | e N | c)*
+Six policies are tied functionally (the model predicts the output).  Random and TinyLfu are tied
+relationally: the RNG / frequency sketch are abstract components of their Coq models, so the model
+driver is fed `<case> || <implementation output>` (Engine.model_input), replays the implementation's
+choices as the abstract component and prints the model's output under them; the usual diff then
+says whether the implementation's behaviour is one the model allows."""
 import re
 from .flow import Engine
 
@@ -6,38 +13,95 @@ KEYS = list(range(12))
 COSTS = [0, 1, 1, 2, 2, 5, 100]
 EVICTS = [0, 1, 2, 3, 7, 200]
 
+# capacities around the f64 rounding boundaries of the constructors (x*0.20: .2/.4/.6/.8; x*0.01: .5 at 50, 150, 250)
+CAPS = {
+    "slru": [0, 1, 2, 3, 4, 5, 7, 8, 10, 12, 13, 50, 1000],
+    "arc": [0, 1, 2, 3, 5, 8, 20, 100, 1000],
+    "tinylfu": [0, 1, 2, 5, 20, 49, 50, 100, 101, 149, 150, 250, 1000],
+}
+ACCESS_UPDATES_COST = ("slru", "arc", "tinylfu")   # on_access(key, cost) stores `cost` (LruList::push_front)
+RELATIONAL = ("random", "tinylfu")
+
+
+def round_half_up_div(a, b):
+    return (2 * a + b) // (2 * b)
+
+
+def tinylfu_window_target(cap):
+    """TinyLfuPolicy::new: max(1, round(cap * 0.01)) unless cap == 0 (written independently of the model)"""
+    return 0 if cap == 0 else max(1, round_half_up_div(cap, 100))
+
 
 class PolicyEngine(Engine):
     model_file = "Cache/Policy*.v"
     exe = "policy"
 
-    def __init__(self, pol, deterministic=True):
+    def __init__(self, pol):
         self.pol = pol
         self.name = "policy." + pol
-        self.deterministic = deterministic
+        self.caps = CAPS.get(pol)
+        self.relational = pol in RELATIONAL
+        self.deterministic = not self.relational
+        self.access_updates = pol in ACCESS_UPDATES_COST
 
     def n_cases(self, tier):
-        return 1500 if tier == "quick" else 30000
+        return 1000 if tier == "quick" else 15000
+
+    def hdr(self, cap=None):
+        if self.caps is None:
+            return self.pol
+        return "%s:%d" % (self.pol, self.caps[0] if cap is None else cap)
+
+    def model_input(self, line, impl_out):
+        return line + " || " + impl_out if self.relational else line
 
     def corpus(self):
-        p = self.pol
-        return [p + " m 1 1 m 1 50 e 1",               # F-19 shape
-                p + " m 1 1 m 2 1 m 3 1 e 100",
-                p + " m 1 2 m 2 3 m 3 4 a 1 0 e 4",
-                p + " m 1 1 a 1 0 m 2 1 a 2 0 m 3 1 e 1 e 1 e 1 e 1",
-                p + " m 1 0 m 2 0 e 1 e 0",
-                p + " m 1 1 m 2 1 r 1 r 1 e 5 c e 1"]
+        out = []
+        for cap in ([None] if self.caps is None else [10, 2, 100]):
+            p = self.hdr(cap)
+            out += [p + " m 1 1 m 1 50 e 1",               # F-19 shape
+                    p + " m 1 1 m 2 1 m 3 1 e 100",
+                    p + " m 1 1 m 2 1 m 3 1 e 3",             # F-20 (admission demotes a resident)
+                    p + " m 1 2 m 2 3 m 3 4 a 1 0 e 4",
+                    p + " m 1 1 a 1 0 m 2 1 a 2 0 m 3 1 e 1 e 1 e 1 e 1",
+                    p + " m 1 0 m 2 0 e 1 e 0",
+                    p + " m 1 1 m 2 1 r 1 r 1 e 5 c e 1",
+                    p + " m 1 1 e 1 m 1 1 e 1 m 1 1 e 1",     # F-20 (evict stalls below p)
+                    p + " m 1 1 e 1",                         # F-21 shape
+                    p + " m 1 1 a 1 5 e 1"]                   # on_access cost
+        if self.pol == "slru":
+            # f64 split at the top of the exact range (2^26 - 1): prob = 13421773, prot = 53687090
+            out += ["slru:67108863 m 1 53687090 a 1 53687090 m 2 1 a 2 1 e 0 e 1 e 1",
+                    "slru:67108863 m 1 53687089 a 1 53687089 m 2 1 a 2 1 e 0 e 1 e 1",
+                    "slru:67108862 m 1 53687089 a 1 53687089 m 2 1 a 2 1 e 0 e 1 e 1"]
+        if self.pol == "arc":
+            # ghost hits with round(b2/b1) at a .5 boundary (3/2) and near 2^26
+            out += ["arc:10 m 1 2 m 2 1 a 2 1 m 3 1 a 3 1 m 4 1 a 4 1 e 2 e 3 m 1 2 m 5 1 e 200",
+                    "arc:67108863 m 1 2 m 2 33554431 a 2 33554431 m 3 1 a 3 1 e 2 e 33554432 m 1 2 e 1 m 4 4 e 200",
+                    "arc:3 m 1 1 m 2 1 m 3 1 m 4 1 m 1 1 m 5 1 e 1 e 1 e 1 e 1"]
+        if self.pol == "tinylfu":
+            out += ["tinylfu:%d m 1 1 m 2 1 m 3 1 m 4 1 m 5 1 e 1 e 1 e 9" % c for c in (49, 50, 149, 150, 250, 6, 7, 8)]
+            out += ["tinylfu:101 m 1 1 m 2 1 a 1 1 a 1 1 a 1 1 m 3 1 m 4 1 m 5 1 e 2 e 100",
+                    "tinylfu:1 m 1 5 m 2 5 m 1 5 e 5",
+                    "tinylfu:0 m 1 0 m 2 1 m 3 0 e 1"]
+        return out
 
     def gen(self, rng, tier):
         n = rng.pick([1, 2, 3, 5, 8, 13, 20, 40, 80, 200])
         nk = rng.pick([2, 3, 5, 8, 12])
-        toks = [self.pol]
+        toks = [self.hdr(rng.pick(self.caps)) if self.caps else self.pol]
+        last = {}
         for _ in range(n):
             op = rng.weighted([("m", 40), ("a", 25), ("r", 10), ("e", 20), ("c", 2)])
             if op == "m":
-                toks += ["m", str(rng.below(nk)), str(rng.pick(COSTS))]
+                k, c = rng.below(nk), rng.pick(COSTS)
+                last[k] = c
+                toks += ["m", str(k), str(c)]
             elif op == "a":
-                toks += ["a", str(rng.below(nk + 1)), str(rng.pick(COSTS))]
+                k = rng.below(nk + 1)
+                # mostly what the cache passes (the entry's cost), sometimes a different one
+                c = last[k] if (k in last and rng.chance(2, 3)) else rng.pick(COSTS)
+                toks += ["a", str(k), str(c)]
             elif op == "r":
                 toks += ["r", str(rng.below(nk + 1))]
             elif op == "e":
@@ -57,38 +121,80 @@ class PolicyEngine(Engine):
         return hdr, ops
 
     def monitor(self, line, out):
-        """C14 clauses judged on the implementation's outputs only."""
+        """C14 clauses judged on the implementation's outputs only.  `tracked` is the property-level
+        notion: keys the policy was told are resident (admitted, not since nominated as a victim,
+        removed or cleared) with the cost it was last told.
+
+        Defects that are or were known get narrow clause ids (is_known matches engine + clause against
+        the `known:` lines of known_findings.txt; `fixed:` lines suppress nothing):
+          readmit-cost                 evict reports the cost of the *first* admission (F-19; known for Fifo only)
+          arc-unevictable-resident     evict falls short and every key left could have been moved to a ghost
+                                       list by an admission under capacity pressure, at most one per such
+                                       admission (F-20-arc-admit, known)
+          arc-evict-stall              any other shortfall of Arc (was F-20-arc-evict, fixed)
+          tinylfu-window-unevictable   evict falls short by no more than the window's worth (was F-21, fixed)"""
         hdr, ops = self.split(line)
+        cap = int(hdr[0].split(":")[1]) if ":" in hdr[0] else 0
         outs = [o.strip() for o in out.split(";")] if out.strip() else []
         hits = []
         tracked = {}       # full clause: re-admission updates the cost
         tracked_old = {}   # what F-19 does: re-admission keeps the old cost
+        maybe_demoted = set()    # Arc: keys that were tracked when some other key was admitted at tracked cost >= capacity
+        pressured_admits = 0     # ... and how many such admissions there were (each demotes at most one resident)
+        slack = 0                # TinyLfu: cost added to (possibly window) keys by on_access since the last clear
+                                 # (an on_admit of a key already in main does not trim the window)
+        wt = tinylfu_window_target(cap)
+        if len(outs) < len(ops) and not (outs and outs[-1] == "PANIC"):
+            hits.append(("bad-output", "%d outputs for %d calls" % (len(outs), len(ops))))
         for op, o in zip(ops, outs):
             if o == "PANIC":
                 hits.append(("panic", "op %s panicked" % " ".join(op)))
                 break
-            if op[0] == "m":
+            if op[0] == "a":
                 k, c = int(op[1]), int(op[2])
+                if o != "ok":
+                    hits.append(("bad-output", o))
+                    break
+                if self.access_updates and k in tracked:
+                    slack += max(0, c - tracked[k])
+                    tracked[k] = c
+                    tracked_old[k] = c
+            elif op[0] == "m":
+                k, c = int(op[1]), int(op[2])
+                if sum(tracked.values()) >= cap and any(kk != k for kk in tracked):
+                    maybe_demoted |= set(tracked)
+                    pressured_admits += 1
+                maybe_demoted.discard(k)
                 if o == "admit":
                     tracked[k] = c
                     tracked_old.setdefault(k, c)
                 elif o.startswith("admitevict"):
                     vs = [int(x) for x in o.split()[1].split(",")] if len(o.split()) > 1 else []
+                    tracked[k] = c
+                    tracked_old.setdefault(k, c)
+                    if len(set(vs)) != len(vs):
+                        hits.append(("victim-duplicate", "admission victims %r" % vs))
                     for v in vs:
                         if v not in tracked:
                             hits.append(("victim-untracked", "admit evicted untracked %d" % v))
                         tracked.pop(v, None)
                         tracked_old.pop(v, None)
-                    tracked[k] = c
-                    tracked_old.setdefault(k, c)
                 elif o == "reject":
-                    pass
+                    # task/janitor.rs ignores Reject: the key stays resident but the policy need not track it
+                    hits.append(("reject", "on_admit(%d) returned Reject, which the cache ignores" % k))
+                else:
+                    hits.append(("bad-output", o))
+                    break
             elif op[0] == "r":
                 tracked.pop(int(op[1]), None)
                 tracked_old.pop(int(op[1]), None)
+                maybe_demoted.discard(int(op[1]))
             elif op[0] == "c":
                 tracked.clear()
                 tracked_old.clear()
+                maybe_demoted.clear()
+                pressured_admits = 0
+                slack = 0
             elif op[0] == "e":
                 m = re.match(r"v \[([0-9,]*)\] (\d+)$", o)
                 if not m:
@@ -112,9 +218,20 @@ class PolicyEngine(Engine):
                     else:
                         hits.append(("cost-mismatch", "evict reported %d, recorded costs sum to %d" % (c, want)))
                 tot = min(sum(tracked.values()), sum(tracked_old.values()))
-                if self.deterministic and tot >= n and c < n:
-                    hits.append(("insufficient", "evict(%d) freed %d although tracked keys are worth %d" % (n, c, tot)))
+                if tot >= n and c < n:
+                    left = sum(cc for kk, cc in tracked.items() if kk not in vs)
+                    clause = "insufficient"
+                    left_keys = set(kk for kk in tracked if kk not in vs)
+                    if self.pol == "arc" and left_keys <= maybe_demoted and len(left_keys) <= pressured_admits:
+                        clause = "arc-unevictable-resident"
+                    elif self.pol == "arc":
+                        clause = "arc-evict-stall"
+                    elif self.pol == "tinylfu" and left <= wt + slack:
+                        clause = "tinylfu-window-unevictable"
+                    hits.append((clause, "evict(%d) freed %d although tracked keys are worth %d (keys left: %r)" % (
+                        n, c, tot, sorted(kk for kk in tracked if kk not in vs))))
                 for v in vs:
                     tracked.pop(v, None)
                     tracked_old.pop(v, None)
+                    maybe_demoted.discard(v)
         return hits
